@@ -3,11 +3,11 @@ package main
 // A6, C6 (SSA, interprocedural): retention settings.
 
 import (
-	"os"
-	"go/constant"
 	"fmt"
+	"go/constant"
 	"go/token"
 	"go/types"
+	"os"
 	"sort"
 	"strconv"
 	"strings"
